@@ -39,7 +39,10 @@ RULE = (
     "B: full product start angle (12) x signed jump (20, |jump| != 180) x representation {[0,360), [-180,180), unwrapped} "
     "x weight {0,1/8,1/4,1/2,3/4,7/8,1} x api {along_axis by name / by declaration / nearest, interpolate_periodic x "
     "discont, data frame columns, Track, at_points/interpolate_dataset on a lon-periodic cube x lon grid x dim order; "
-    "interpolate_dataset x 4 seam-straddling tracks x periodic_data {omitted, {}, another variable only, one direction "
+    "every longitude node count 4..72 x construction {linspace, arange*360/n} x start {0,-180,0.1,1/3,-179.7} x "
+    "{at_points, interpolate_dataset} x points {wrap-bin mid, +-360, -720, below first node, other convention}; "
+    "Track / data frame long tracks {+-100 x8, +-170 x6, +-45 x10, 179.9 x4, there-and-back} x 3 starts x 3 "
+    "representations; interpolate_dataset x 4 seam-straddling tracks x periodic_data {omitted, {}, another variable only, one direction "
     "variable, all angular variables}}. "
     "One evaluation = one (call, variable, target[, pair]) value compared with the reference. Non-trivial: the target "
     "falls in the bin that spans the wrap or is at least one period away from the grid (A); the pair crosses a seam, "
@@ -65,6 +68,7 @@ REQUIRED_CATEGORIES = [
     "track_longitude", "at_points_across_antimeridian", "at_points_angular", "interpolate_dataset_rows",
     "interpolate_dataset_explicit_periodic_data",
     "periodic_fn", "spectrum_direction", "angular_on_periodic_coordinate",
+    "long_track_bins_beyond_180_from_first_fix", "every_node_count_grids", "every_node_count_wrap_bin_points",
 ]
 
 T0 = datetime(2022, 1, 1, tzinfo=timezone.utc)
@@ -239,6 +243,12 @@ def chain(conv, start=0.0):
     for j in order:
         th.append(th[-1] + j)
     return np.array([represent(t, conv) for t in th]), np.array(order)
+
+
+LONG_TRACKS = {
+    "east100": [100.0] * 8, "west100": [-100.0] * 8, "east170": [170.0] * 6, "west170": [-170.0] * 6,
+    "east45": [45.0] * 10, "west45": [-45.0] * 10, "east179.9": [179.9] * 4, "there_and_back": [100.0] * 4 + [-100.0] * 4,
+}
 
 
 def chain_times(n):
@@ -695,10 +705,19 @@ def run_frames(unit):
 
     c = Collector()
     n_nontriv = 0
+    series = [(conv, start, "chain") + chain(conv, start=start) for conv in CONVS for start in (3.0, 171.0, 358.5)]
+    # long tracks: steady travel, more than 180 degrees (up to two full turns) away from the first fix
     for conv in CONVS:
-        for start in (3.0, 171.0, 358.5):
-            vals, jumps = chain(conv, start=start)
+        for start in (0.0, 130.0, -175.0):
+            for lname, steps in LONG_TRACKS.items():
+                th = start + np.concatenate([[0.0], np.cumsum(steps)])
+                series.append((conv, start, lname, np.array([represent(t, conv) for t in th]), np.array(steps)))
+    for conv, start, sname, vals, jumps in series:
+        if True:
             n = len(vals)
+            if sname != "chain":
+                c.cat("long_track_bins_beyond_180_from_first_fix",
+                      int(np.sum(np.abs(np.cumsum(jumps)) > 180.0)))
             ts = chain_times(n)
             t64 = T0_64 + ts * np.timedelta64(1, "s")
             crossed = count_pairs(c, vals[:-1], vals[1:], jumps)
@@ -721,7 +740,7 @@ def run_frames(unit):
                         "longitude": vals, "latitude": lat, "significantWaveHeight": lat * 0.1 + 2.0}
                 df = pd.DataFrame(cols)
                 key0 = {"api": "interpolate_dataframe_time", "representation": conv}
-                c.case(dict(key0, start=start))
+                c.case(dict(key0, start=start, series=sname))
                 try:
                     out = interpolate_dataframe_time(df, new_t.copy())
                 except Exception as exc:  # noqa
@@ -766,8 +785,9 @@ def run_frames(unit):
                             c.violation(dict(key0, check="range [0,360)", column="direction column"),
                                         f"{col}: {r[j]!r} outside [0,360)")
             else:
-                key0 = {"api": "Track.interpolate", "representation": conv, "via": unit["via"]}
-                c.case(dict(key0, start=start))
+                key0 = {"api": "Track.interpolate", "representation": conv, "via": unit["via"],
+                        "series": "chain" if sname == "chain" else "long track"}
+                c.case(dict(key0, start=start, series=sname))
                 try:
                     tr = Track.from_arrays(lat, vals, t64, "trk")
                     if unit["via"] == "track":
@@ -1012,6 +1032,80 @@ def run_points(unit):
 
 
 # --------------------------------------------------------------------------------------------
+# unit B5: global longitude grids of EVERY node count 4..72 (two constructions, round and non-round starts) under the
+# track-point interpolators: a point in the bin that spans the wrap, the same point one / two periods away, a point
+# just below the first node, an interior bin in the other longitude convention
+# --------------------------------------------------------------------------------------------
+EVERY_N_STARTS = [("0", 0.0), ("-180", -180.0), ("0.1", 0.1), ("1/3", 1.0 / 3.0), ("-179.7", -179.7)]
+
+
+def run_every_n(unit):
+    import xarray
+    from ocean_science_utilities.interpolate.dataset import interpolate_at_points, interpolate_dataset
+    from ocean_science_utilities.interpolate.geometry import Track
+
+    c = Collector()
+    t64 = T0_64 + CUBE_T * np.timedelta64(1, "s")
+    dims = ("time", "latitude", "longitude")
+    for n in range(unit["n0"], unit["n1"] + 1):
+        hs, d1, _ = cube_fields(n)
+        for cons in ("linspace", "arange"):
+            for sname, start in EVERY_N_STARTS:
+                if cons == "linspace":
+                    nodes = np.linspace(start, start + 360.0, n, endpoint=False)
+                else:
+                    nodes = start + np.arange(n) * 360.0 / n
+                g = PGrid(f"{cons}_n{n}_s{sname}", nodes)
+                c.cat("every_node_count_grids")
+                ds = xarray.Dataset({"hs": (dims, hs), "mean_direction": (dims, d1)},
+                                    coords={"time": t64, "latitude": CUBE_LAT, "longitude": nodes.copy()})
+                ww = float(g.width[-1])
+                w_mid = float(nodes[-1]) + 0.5 * ww
+                k = n // 2
+                lons = [w_mid, w_mid + 360.0, w_mid - 360.0, float(nodes[-1]) + 0.25 * ww - 720.0,
+                        float(nodes[0]) - 0.25 * ww, float(nodes[k]) + 0.5 * float(g.width[k]) + (360.0 if nodes[k] < 0 else -360.0)]
+                pts = [(t, la, lo) for (t, la) in ((900, -5.0), (7200, 12.5)) for lo in lons]
+                corners = corner_reference(g, pts, None)
+                key0 = {"api": "interpolate_at_points", "grid_family": "every node count", "n": n, "construction": cons,
+                        "start": sname}
+                c.case(key0)
+                try:
+                    out = interpolate_at_points(
+                        ds, {"time": T0_64 + np.array([p[0] for p in pts], dtype="int64") * np.timedelta64(1, "s"),
+                             "latitude": np.array([p[1] for p in pts]), "longitude": np.array([p[2] for p in pts])},
+                        independent_variable="time", periodic_coordinates={"longitude": 360},
+                        periodic_data={"mean_direction": (360, 360)})
+                    got = {k_: np.asarray(out[k_].values, dtype=float) for k_ in ("hs", "mean_direction")}
+                    across = check_points(c, key0, got, pts, corners, hs, d1, {"mean_direction": d1}, g)
+                    c.cat("every_node_count_wrap_bin_points", across)
+                    c.nontriv(n=across)
+                except Exception as exc:  # noqa
+                    c.violation(dict(key0, check="raises"), f"raised {type(exc).__name__}: {exc}", traceback=tb_tail())
+                # the track front end (declares longitude periodic itself); fixes at the data set's time stamps
+                key1 = dict(key0, api="interpolate_dataset")
+                c.case(key1)
+                tl = [w_mid, float(nodes[0]) - 0.25 * ww, lons[5]]
+                la = [-5.0, 12.5, 20.0]
+                tpts = [(int(CUBE_T[i]), la[i], tl[i]) for i in range(3)]
+                try:
+                    frame = interpolate_dataset(ds, Track.from_arrays(la, tl, t64, "trk"))["track"]
+                    if len(frame) != 3:
+                        c.violation(dict(key1, check="rows"), f"{len(frame)} rows for 3 track points")
+                    else:
+                        got = {k_: np.asarray(frame[k_].values, dtype=float) for k_ in ("hs", "mean_direction")}
+                        across = check_points(c, key1, got, tpts, corner_reference(g, tpts, None), hs, d1,
+                                              {"mean_direction": d1}, g, counts=False)
+                        c.cat("every_node_count_wrap_bin_points", across)
+                        c.nontriv(n=across)
+                except Exception as exc:  # noqa
+                    c.violation(dict(key1, check="raises"), f"raised {type(exc).__name__}: {exc}", traceback=tb_tail())
+    c.sample({"api": "interpolate_at_points / interpolate_dataset", "node_counts": [unit["n0"], unit["n1"]],
+              "constructions": ["np.linspace(start, start+360, n, endpoint=False)", "start + np.arange(n)*360/n"],
+              "starts": [s_ for s_, _ in EVERY_N_STARTS]})
+    return c.result()
+
+
+# --------------------------------------------------------------------------------------------
 # unit A3: spectrum.interpolate along direction
 # --------------------------------------------------------------------------------------------
 def run_specdir(unit):
@@ -1092,6 +1186,9 @@ def units(tier):
                        "order": list(order), "cost": 200})
             us.append({"name": f"points:interpolate_dataset:{lg}:{tag}", "kind": "points", "api": "interpolate_dataset",
                        "lon_grid": lg, "order": list(order), "cost": 20})
+    for n0 in range(4, 73, 6):
+        us.append({"name": f"every_n:{n0}-{min(n0 + 5, 72)}", "kind": "every_n", "n0": n0, "n1": min(n0 + 5, 72),
+                   "cost": 150})
     us.append({"name": "specdir", "kind": "specdir", "cost": 100})
     return us
 
@@ -1100,4 +1197,4 @@ def run_unit(unit):
     if "order" in unit:
         unit = dict(unit, order=tuple(unit["order"]))
     return {"pcoord": run_pcoord, "periodic_fn": run_periodic_fn, "angdata": run_angdata, "frames": run_frames,
-            "points": run_points, "specdir": run_specdir}[unit["kind"]](unit)
+            "points": run_points, "specdir": run_specdir, "every_n": run_every_n}[unit["kind"]](unit)
